@@ -10,8 +10,8 @@ import time
 
 import z3
 
-Z3_TIMEOUT_MS = int(os.environ.get("PYVC_Z3_TIMEOUT_MS", "30000"))
-CVC5_TIMEOUT_S = int(os.environ.get("PYVC_CVC5_TIMEOUT_S", "60"))
+Z3_TIMEOUT_MS = int(os.environ.get("PYVC_Z3_TIMEOUT_MS", "15000"))
+CVC5_TIMEOUT_S = int(os.environ.get("PYVC_CVC5_TIMEOUT_S", "30"))
 CVC5 = shutil.which("cvc5") or "/usr/bin/cvc5"
 
 STATS = {"z3": 0, "cvc5": 0, "z3_s": 0.0, "cvc5_s": 0.0, "queries": 0}
